@@ -111,6 +111,16 @@ func genC10(seed int64, tier string) *Scenario {
 		cur["a.lua"] = "gfoo = 1\nlocal handler = func\nlocal other = gf\n"
 		sc.Knobs["resolve"] = true
 	}
+	dirtyEvent := !resolveProfile && r.Intn(5) == 0
+	if dirtyEvent {
+		// a.lua has unsaved edits when the burst begins, and the burst contains the watcher's report
+		// about that very file (the delayed echo of an earlier save, a checkout): queries and edits
+		// right behind it must see the buffer's analysis, as in some sequential order
+		t := c10Texts["a.lua"][r.Intn(len(c10Texts["a.lua"]))]
+		sc.Ops = append(sc.Ops, Op{Kind: "change", Path: "a.lua", Edits: []Edit{{Full: true, Text: t + "local unsaved_edit = 1\nprint(unsaved_edit)\n"}}})
+		cur["a.lua"] = t + "local unsaved_edit = 1\nprint(unsaved_edit)\n"
+		sc.Knobs["dirty_event"] = true
+	}
 	from := len(sc.Ops)
 	writers := 0
 	lastReader := ""
@@ -130,6 +140,12 @@ func genC10(seed int64, tier string) *Scenario {
 		p := Pos{r.Intn(4), r.Intn(8)}
 		if len(pos) > 0 && r.Intn(5) > 0 {
 			p = pos[r.Intn(len(pos))]
+		}
+		if dirtyEvent && i == 0 {
+			sc.Ops = append(sc.Ops, Op{Kind: "event", Path: "a.lua", Async: true})
+			writers++
+			lastDoc = "a.lua"
+			continue
 		}
 		if resolveProfile && i < 2 {
 			if i == 0 {
